@@ -2,6 +2,7 @@ import Norad.Model.FontSave
 import Norad.Lemmas.FontSave
 import Norad.Lemmas.SafePlan
 import Norad.Lemmas.Determined
+import Norad.Lemmas.LayerDir
 /-!
 # C09 — a saved tree depends only on the font and stays inside the target
 
@@ -10,7 +11,7 @@ joined onto the target without normalisation, as in the code, and resolved by th
 way the kernel does.  Specification side: `FontSave.safePaths`, `FontSave.expectedPaths`.
 -/
 namespace C09
-open AbsFS FontSave
+open AbsFS FontSave FontLoad
 
 variable {β : Type}
 
@@ -183,6 +184,76 @@ theorem fontinfo_listed_of_nonempty (f : AFont β) (t : APath) (h : f.info.isEmp
   unfold expectedPaths
   simp [h, expTop]
 
+/-- fonts whose relative paths are single normal components — what the container API assigns: C07's contract
+    "assigned file names are single normal components", `glyphs` / `glyphs.*` for layers, `file_name()` on load —
+    and whose store keys are safe satisfy the guard -/
+theorem api_built_fonts_safe (f : AFont β)
+    (hl : ∀ l ∈ f.layers, safeRel (Path.parse l.dir) = true ∧ ∀ e ∈ l.entries, safeRel (Path.parse e.file) = true)
+    (hd : ∀ kc ∈ f.data.items, safeRel kc.1 = true) (hi : ∀ kc ∈ f.images.items, safeRel kc.1 = true) :
+    safePaths f = true := by
+  unfold safePaths
+  simp only [Bool.and_eq_true, List.all_eq_true]
+  exact ⟨⟨fun l hlm => ⟨(hl l hlm).1, (hl l hlm).2⟩, hd⟩, hi⟩
+
+/-! ### the load side: for a loaded font only glif paths need the guard -/
+
+/-- **Every layer of a font returned by `loadImpl` has a directory that is one normal component** (the `file_name()` of
+    layer.rs:376, or `glyphs` for the placeholder): read back as a path it is exactly `[normal dir]` — whatever
+    `layercontents.plist` said (`../sketches.glyphs`, `a/b`, an absolute path), for every request.  `goodName` on the
+    names of the load path says that they are path components (no separator, not `.`/`..`). -/
+theorem loaded_layer_dirs_single_component (P : Parser β) (fs0 : FS β) (t0 : APath) (r : Request) (f : AFont β)
+    (h : loadImpl P fs0 t0 r = .ok f) (ht : ∀ n ∈ t0, goodName n = true) :
+    ∀ l ∈ f.layers, Path.parse l.dir = ⟨false, [.normal l.dir]⟩ :=
+  fun l hl => parse_goodName (loadImpl_layer_dirs_good h ht l hl)
+
+/-- the store keys of a loaded font are non-empty lists of normal components (they come from a directory listing) -/
+theorem loaded_store_keys_safe (P : Parser β) (fs0 : FS β) (t0 : APath) (r : Request) (f : AFont β)
+    (h : loadImpl P fs0 t0 r = .ok f) :
+    (∀ kc ∈ f.data.items, safeRel kc.1 = true) ∧ (∀ kc ∈ f.images.items, safeRel kc.1 = true) := by
+  obtain ⟨hd, hi⟩ := loadImpl_stores h
+  exact ⟨loadStore_keys_safe hd, loadStore_keys_safe hi⟩
+
+/-- hence `safePaths` of a loaded font reduces to its glif paths (the `contents.plist` values, kept verbatim) -/
+theorem loaded_font_safePaths (P : Parser β) (fs0 : FS β) (t0 : APath) (r : Request) (f : AFont β)
+    (h : loadImpl P fs0 t0 r = .ok f) (ht : ∀ n ∈ t0, goodName n = true)
+    (hglif : ∀ l ∈ f.layers, ∀ e ∈ l.entries, safeRel (Path.parse e.file) = true) :
+    safePaths f = true := by
+  obtain ⟨hd, hi⟩ := loaded_store_keys_safe P fs0 t0 r f h
+  exact api_built_fonts_safe f
+    (fun l hl => ⟨safeRel_goodName (loadImpl_layer_dirs_good h ht l hl), hglif l hl⟩) hd hi
+
+/-- **`save_frame` for loaded fonts**: the guard is needed for glif paths only -/
+theorem save_frame_loaded (P : Parser β) (cfg : Cfg β) (fs0 : FS β) (t0 : APath) (r : Request) (f : AFont β)
+    (h : loadImpl P fs0 t0 r = .ok f) (ht : ∀ n ∈ t0, goodName n = true)
+    (hglif : ∀ l ∈ f.layers, ∀ e ∈ l.entries, safeRel (Path.parse e.file) = true)
+    (fs : FS β) (t : APath) :
+    ∀ q, ¬ t <+: q → lookup (saveImpl cfg f fs t).2 q = lookup fs q :=
+  save_frame cfg f fs t (loaded_font_safePaths P fs0 t0 r f h ht hglif)
+
+/-- non-vacuity: a `layercontents.plist` naming the sibling directory `../sk.glyphs` loads, and the layer keeps `sk.glyphs` -/
+def siblingParser : Parser Nat where
+  metainfo _ := some (3, 1)
+  lib _ := none
+  fontinfo _ := none
+  groups _ := none
+  kerning _ := none
+  features _ := none
+  layercontents _ := some [("public.default".toList, "glyphs".toList), ("sk".toList, "../sk.glyphs".toList)]
+  contents _ := some []
+  layerinfo _ := none
+  glif _ := none
+
+def siblingTree : FS Nat :=
+  [(["o".toList], .dir), (["o".toList, "t".toList], .dir), (["o".toList, "t".toList, "metainfo.plist".toList], .file 0),
+   (["o".toList, "t".toList, "layercontents.plist".toList], .file 0),
+   (["o".toList, "t".toList, "glyphs".toList], .dir),
+   (["o".toList, "t".toList, "glyphs".toList, "contents.plist".toList], .file 0),
+   (["o".toList, "sk.glyphs".toList], .dir), (["o".toList, "sk.glyphs".toList, "contents.plist".toList], .file 0)]
+
+example : ∃ f, loadImpl siblingParser siblingTree ["o".toList, "t".toList] Request.everything = .ok f ∧
+    f.layers.map (·.dir) = ["glyphs".toList, "sk.glyphs".toList] ∧ safePaths f = true :=
+  ⟨_, rfl, by decide, by decide⟩
+
 /-! ### `save_frame` is false without the guard (recorded findings)
 
 (`exactly_the_determined_files` above is proved in its explicit form; the oracle rule `exact-files` checks the same
@@ -224,17 +295,6 @@ theorem save_frame_counterexample_contents_value :
 /-- both counterexample fonts are rejected by the guard, the base font is not (the guard is not vacuous) -/
 theorem guard_separates :
     safePaths keyFont = false ∧ safePaths glifFont = false ∧ safePaths baseFont = true := by decide
-
-/-- fonts whose relative paths are single normal components — what the container API assigns: C07's contract
-    "assigned file names are single normal components", `glyphs` / `glyphs.*` for layers, `file_name()` on load —
-    and whose store keys are safe satisfy the guard -/
-theorem api_built_fonts_safe (f : AFont β)
-    (hl : ∀ l ∈ f.layers, safeRel (Path.parse l.dir) = true ∧ ∀ e ∈ l.entries, safeRel (Path.parse e.file) = true)
-    (hd : ∀ kc ∈ f.data.items, safeRel kc.1 = true) (hi : ∀ kc ∈ f.images.items, safeRel kc.1 = true) :
-    safePaths f = true := by
-  unfold safePaths
-  simp only [Bool.and_eq_true, List.all_eq_true]
-  exact ⟨⟨fun l hlm => ⟨(hl l hlm).1, (hl l hlm).2⟩, hd⟩, hi⟩
 
 /-- the saved tree of the base font, as the model computes it: exactly the determined files -/
 example : (saveImpl cfgN baseFont outer target).1 = none ∧
